@@ -35,7 +35,7 @@ def gen(rng: random.Random, tier: str, idx: int) -> dict:
     clock = rng.choice(["fine", "fine", "coarse", "nonmono"])
     skews = [0.0, -5.0, -3600.0, 7.0, -0.5] if clock == "nonmono" else None
     return {"backend": backend, "clock": "fine" if clock == "nonmono" else clock, "label": clock,
-            "quantum": rng.choice([0.05, 1.0]), "ops": history.gen_history(rng, skews=skews)}
+            "quantum": rng.choice([0.05, 1.0]), "ops": history.gen_history(rng, n_hi=14 if tier == "quick" else 24, skews=skews)}
 
 
 def shrink(plan: dict):
